@@ -45,9 +45,18 @@ Rel(f) == RelText[f.val][f.src]
 (* Contexts in which the singleton rule applies. *)
 UnaryCtx == {"not", "where", "exists", "all", "iif", "asbool"}
 
+(* Criteria over a focus of SEVERAL items: the focus is %vmb = (true, false) and the criterion iif($this, L, R) is form L *)
+(* on the first item and form R on the second.  Only forms whose text means the same on any focus can stand there    *)
+(* (literals, variables, computed values that do not start at the resource).  What the rule says per item holds for  *)
+(* every item, whatever the items before it gave: a criterion result of several items is an error, also behind an    *)
+(* item that already decides exists() - `exists(p)` is `where(p).exists()`.                                          *)
+PairCtx == {"where2", "exists2", "all2"}
+PairForms == {f \in Forms : f.src \in {"lit", "env"} \/ (f.src = "comp" /\ f.val \notin {"multi", "multibool"})}
+
 Cases ==
   {[ctx |-> "binop", op |-> o, l |-> a, r |-> b] : o \in BoolOps, a \in Forms, b \in Forms}
   \cup {[ctx |-> c, op |-> "-", l |-> a, r |-> a] : c \in UnaryCtx, a \in Forms}
+  \cup {[ctx |-> c, op |-> "-", l |-> a, r |-> b] : c \in PairCtx, a \in PairForms, b \in PairForms}
 
 Text(c) ==
   CASE c.ctx = "binop"  -> Abs(c.l) \o " " \o c.op \o " " \o Abs(c.r)
@@ -57,6 +66,8 @@ Text(c) ==
     [] c.ctx = "all"    -> "Patient.all(" \o Rel(c.l) \o ")"
     [] c.ctx = "iif"    -> "iif(" \o Abs(c.l) \o ", 1, 2)"
     [] c.ctx = "asbool" -> Abs(c.l)
+    [] c.ctx \in PairCtx -> "%vmb." \o (CASE c.ctx = "where2" -> "where" [] c.ctx = "exists2" -> "exists" [] OTHER -> "all")
+                              \o "(iif($this, " \o Abs(c.l) \o ", " \o Abs(c.r) \o "))"
 
 (* The Patient itself, as an input node (resource 1, root address). *)
 RootNode == [t |-> "el", r |-> 1, addr |-> <<>>, h |-> ""]
@@ -73,6 +84,16 @@ ExpectedFrom(c, a, b) ==
     [] c.ctx = "all"   -> IF a = "ERR" THEN ErrAny ELSE Ok(<<B(a = "T")>>)
     [] c.ctx = "iif"   -> IF a = "ERR" THEN ErrAny ELSE Ok(<<I(IF a = "T" THEN 1 ELSE 2)>>)
     [] c.ctx = "asbool" -> IF a = "ERR" THEN ErrAny ELSE Ok(<<B(a = "T")>>)
+    [] c.ctx = "where2" -> IF "ERR" \in {a, b} THEN ErrAny
+                           ELSE Ok((IF a = "T" THEN <<B(TRUE)>> ELSE <<>>) \o (IF b = "T" THEN <<B(FALSE)>> ELSE <<>>))
+    [] c.ctx = "exists2" -> IF "ERR" \in {a, b} /\ ~(Mutant = "existsStopsAtFirstTrue" /\ a = "T") THEN ErrAny
+                            ELSE Ok(<<B(a = "T" \/ b = "T")>>)
+    [] c.ctx = "all2" -> IF "ERR" \in {a, b} THEN ErrAny ELSE Ok(<<B(a = "T" /\ b = "T")>>)
+
+(* all(p) "is true iff p is true for every item": when the criterion fails on one item and is not true on the other,  *)
+(* false is permitted next to the error (an evaluation that stops at the first item that is not true never meets the *)
+(* failing one) - the reading recorded in DESIGN.md 13.5.                                                            *)
+AllMayBeFalse(c) == c.ctx = "all2" /\ "ERR" \in {Den(c.l), Den(c.r)} /\ ({Den(c.l), Den(c.r)} \cap {"F", "E"}) # {}
 
 CaseId(c) == c.ctx \o "/" \o c.op \o "/" \o c.l.val \o "." \o c.l.src \o "/" \o c.r.val \o "." \o c.r.src
 
